@@ -38,6 +38,7 @@ type Options struct {
 	ShareBase   int           // default 100
 	MaxShare    int           // default -1
 	LockTimeout time.Duration // default 20 s (== TTL of lock sessions)
+	PoolSize    int           // capacity of calcium's task pool (MaxConcurrency); default 5000
 	Raw         bool          // no interception at all (C34: the interceptor's own synchronisation would hide races)
 }
 
@@ -93,6 +94,9 @@ func (o Options) config(walFile string) types.Config {
 		Etcd:                types.EtcdConfig{Prefix: etcdPrefix, LockPrefix: lockPrefix},
 		Scheduler:           types.SchedulerConfig{MaxShare: ms, ShareBase: sb, MaxDeployCount: 10000},
 		GRPCConfig:          types.GRPCConfig{ServiceDiscoveryPushInterval: 15 * time.Second},
+	}
+	if o.PoolSize > 0 {
+		cfg.MaxConcurrency = o.PoolSize
 	}
 	if o.Redis {
 		cfg.Store = types.Redis
@@ -452,6 +456,25 @@ func (w *World) CheckNodeUsage(node string) []string {
 }
 
 // ---------------------------------------------------------------------------------------
+// SaturatePool occupies every worker of calcium's task pool with a task that blocks until the
+// returned release function is called (idempotent), the way long-running concurrent requests
+// (streams, deployments) do: from then on the non-blocking pool refuses every further task.
+// Returns the number of workers occupied.
+func (w *World) SaturatePool() (occupied int, release func()) {
+	ch := make(chan struct{})
+	var once sync.Once
+	release = func() { once.Do(func() { close(ch) }) }
+	deadline := time.Now().Add(2 * time.Second)
+	for occupied < w.Cfg.MaxConcurrency && time.Now().Before(deadline) {
+		if err := w.Cal.VerifPoolInvoke(func() { <-ch }); err != nil {
+			time.Sleep(2 * time.Millisecond) // an earlier task is still winding down: try again
+			continue
+		}
+		occupied++
+	}
+	return occupied, release
+}
+
 // quiescence
 
 // Quiesce waits until the calcium pool executes no task and no intercepted call is in flight,
